@@ -89,6 +89,26 @@ Lemma marked_repeat : forall n x, ~ marked (repeat false n) x.
 Proof. intros n x. unfold marked, nth_bool. rewrite nth_repeat_false. discriminate. Qed.
 
 (* ------------------------------------------------------------------ *)
+(** * Connectedness (undirected paths along attacks) *)
+
+Inductive conn (F : af) : nat -> nat -> Prop :=
+| conn_refl : forall x, conn F x x
+| conn_step : forall x y z, conn F x y -> (att F y z \/ att F z y) -> conn F x z.
+
+Lemma conn_trans : forall F x y z, conn F x y -> conn F y z -> conn F x z.
+Proof.
+  intros F x y z Hxy Hyz. induction Hyz as [y|y u v Hyu IH Huv]; [exact Hxy|].
+  apply (conn_step F x u v); [apply IH; exact Hxy | exact Huv].
+Qed.
+
+Lemma conn_sym : forall F x y, conn F x y -> conn F y x.
+Proof.
+  intros F x y H. induction H as [x|x u v Hxu IH Huv]; [apply conn_refl|].
+  apply (conn_trans F v u x); [|exact IH].
+  apply (conn_step F v v u); [apply conn_refl | tauto].
+Qed.
+
+(* ------------------------------------------------------------------ *)
 (** * The extraction of one component *)
 
 Definition ea_step (comp : list nat) (acc : option (list (nat * nat))) (p : nat * nat) :=
@@ -304,7 +324,9 @@ Record dfs_inv (l0 : list bool) (a : nat) (d : dfs) : Prop := {
   di_root : In a (d_current d);
   di_stack : incl (d_stack d) (d_current d);
   di_closed : forall x y, In x (d_current d) -> ~ In x (d_stack d) -> adj x y ->
-              marked (in_cc (d_s d)) y }.
+              marked (in_cc (d_s d)) y;
+  di_hd : exists tl, d_current d = a :: tl;
+  di_conn : forall x, In x (d_current d) -> conn F a x }.
 
 Lemma dfs_inv_length : forall l0 a d, dfs_inv l0 a d -> length (d_current d) <= N.
 Proof.
@@ -352,7 +374,12 @@ Proof.
         + apply Hm. left. apply (di_closed _ _ _ Hinv x y Hx); [|exact Hxy].
           rewrite Hpop. intros Hin. apply in_app_or in Hin. destruct Hin as [Hin|[Hin|[]]].
           * apply Hns. apply in_or_app. left. exact Hin.
-          * apply Hne. symmetry. exact Hin. }
+          * apply Hne. symmetry. exact Hin.
+      - destruct (di_hd _ _ _ Hinv) as [tl Htl]. exists (tl ++ new). rewrite Hc, Htl. reflexivity.
+      - intros x Hx. rewrite Hc in Hx. apply in_app_or in Hx. destruct Hx as [Hx|Hx].
+        + exact (di_conn _ _ _ Hinv x Hx).
+        + apply (conn_step F a0 a x); [exact (di_conn _ _ _ Hinv a Ha)|].
+          apply nbr_spec. exact (proj1 (Hnew x Hx)). }
     apply IH; [exact Hinv'|].
     pose proof (dfs_inv_length _ _ _ Hinv') as Hle. rewrite Hc, app_length in Hle.
     rewrite Hc, Hs, !app_length. rewrite Hpop, app_length in Hfuel. cbn [length] in Hfuel. lia.
@@ -376,8 +403,10 @@ Lemma find_cc_spec : forall s a,
   st_ok s -> In a (args F) -> ~ marked (in_cc s) a ->
   st_ok (fst (find_cc g s a)) /\ cc_ok (in_cc s) (snd (find_cc g s a)) /\
   In a (snd (find_cc g s a)) /\
-  forall x, marked (in_cc (fst (find_cc g s a))) x <->
-            marked (in_cc s) x \/ In x (snd (find_cc g s a)).
+  (forall x, marked (in_cc (fst (find_cc g s a))) x <->
+             marked (in_cc s) x \/ In x (snd (find_cc g s a))) /\
+  (exists tl, snd (find_cc g s a) = a :: tl) /\
+  (forall x, In x (snd (find_cc g s a)) -> conn F a x).
 Proof.
   intros s a Hs Ha Hna. unfold find_cc. cbn [fst snd].
   set (s0 := {| in_cc := set_nth a true (in_cc s); next_arg := next_arg s |}).
@@ -397,11 +426,13 @@ Proof.
     - intros x [<-|[]]. split; assumption.
     - left. reflexivity.
     - apply incl_refl.
-    - intros x y Hx Hnx. contradiction. }
+    - intros x y Hx Hnx. contradiction.
+    - exists []. reflexivity.
+    - intros x [<-|[]]. apply conn_refl. }
   destruct (dfs_loop_spec (in_cc s) a (S (length (in_cc s))) d0 Hinv0) as [Hinv Hstack].
   { cbn [d0 d_current d_stack length]. rewrite (so_len _ Hs). lia. }
   set (d := dfs_loop (S (length (in_cc s))) g d0) in *.
-  split; [|split; [|split]].
+  split; [|split; [|split; [|split; [|split]]]].
   - constructor.
     + exact (di_len _ _ _ Hinv).
     + exact (di_next _ _ _ Hinv).
@@ -422,6 +453,8 @@ Proof.
       exact (so_closed _ Hs y x Hy (adj_sym _ _ Hxy)).
   - exact (di_root _ _ _ Hinv).
   - exact (di_marked _ _ _ Hinv).
+  - exact (di_hd _ _ _ Hinv).
+  - exact (di_conn _ _ _ Hinv).
 Qed.
 
 (* ---------------- extraction ---------------- *)
@@ -504,7 +537,7 @@ Proof.
   apply Nat.eqb_neq in E. pose proof (n_le _ (so_next _ Hs)) as Hle.
   assert (Hlt : next_arg s < length (in_cc s)) by lia.
   destruct (n_hi _ (so_next _ Hs) Hlt) as [Ha Hna].
-  destruct (find_cc_spec s (next_arg s) Hs Ha Hna) as [Hs' [Hcc [Hin Hm]]].
+  destruct (find_cc_spec s (next_arg s) Hs Ha Hna) as [Hs' [Hcc [Hin [Hm _]]]].
   destruct (find_cc g s (next_arg s)) as [s' ids]. cbn [fst snd] in Hs', Hcc, Hin, Hm.
   destruct (extract_cc_ok _ _ Hcc) as [c [Hc [Hids Hgood]]]. rewrite Hc.
   assert (Hnext : next_arg s < next_arg s').
@@ -565,6 +598,57 @@ Proof.
   exact (part_ok_decomp _ _ Hnone H2).
 Qed.
 
+(* ---------------- the components of the iterator are connected ---------------- *)
+Lemma extract_cc_ids : forall ids c, extract_cc g ids = Some c -> c_ids c = ids.
+Proof.
+  intros ids c H. unfold extract_cc in H. destruct (extract_atts ids (g_atts g)); [|discriminate].
+  injection H as <-. reflexivity.
+Qed.
+
+Definition connected_cc (c : comp) : Prop :=
+  exists a tl, c_ids c = a :: tl /\ forall x, In x (c_ids c) -> conn F a x.
+
+Lemma all_ccs_fuel_conn : forall fuel s ccs, st_ok s -> all_ccs_fuel fuel g s = Some ccs ->
+  forall c, In c ccs -> connected_cc c.
+Proof.
+  induction fuel as [|f IH]; intros s ccs Hs H c Hc.
+  - cbn [all_ccs_fuel] in H. injection H as <-. destruct Hc.
+  - cbn [all_ccs_fuel] in H. unfold next_cc in H.
+    destruct (g_ids g) as [|i0 ids0]; [injection H as <-; destruct Hc|].
+    destruct (Nat.eqb (next_arg s) (length (in_cc s))) eqn:E; [injection H as <-; destruct Hc|].
+    apply Nat.eqb_neq in E. pose proof (n_le _ (so_next _ Hs)) as Hle.
+    assert (Hlt : next_arg s < length (in_cc s)) by lia.
+    destruct (n_hi _ (so_next _ Hs) Hlt) as [Ha Hna].
+    destruct (find_cc_spec s (next_arg s) Hs Ha Hna) as [Hs' [_ [_ [_ [Hhd Hconn]]]]].
+    destruct (find_cc g s (next_arg s)) as [s' ids]. cbn [fst snd] in Hs', Hhd, Hconn.
+    destruct (extract_cc g ids) as [c0|] eqn:Ec; [|discriminate].
+    destruct (all_ccs_fuel f g s') as [rest|] eqn:Er; [|discriminate].
+    injection H as <-. destruct Hc as [<-|Hc].
+    + apply extract_cc_ids in Ec. destruct Hhd as [tl Htl]. exists (next_arg s), tl.
+      rewrite Ec. split; [exact Htl | exact Hconn].
+    + exact (IH s' rest Hs' Er c Hc).
+Qed.
+
+Lemma closed_conn : forall l x y,
+  (forall u v, In u l -> adj u v -> In v l) -> In x l -> conn F x y -> In y l.
+Proof.
+  intros l x y Hcl Hx H. induction H as [x|x u v Hxu IH Huv]; [exact Hx|].
+  apply (Hcl u v); [apply IH; exact Hx | exact Huv].
+Qed.
+
+(** the components returned by the iterator are exactly the connectivity classes *)
+Theorem all_ccs_classes_sec : forall ccs, all_ccs g = Some ccs ->
+  forall c, In c ccs ->
+    c_ids c <> [] /\ forall x y, In x (c_ids c) -> (In y (c_ids c) <-> conn F x y).
+Proof.
+  intros ccs H c Hc. destruct cc_new_spec as [Hs Hnone]. unfold all_ccs in H.
+  destruct (remaining_ccs_spec _ Hs) as [ccs' [H1 Hpart]]. rewrite H in H1. injection H1 as <-.
+  destruct (all_ccs_fuel_conn _ _ _ Hs H c Hc) as [a [tl [Hids Hconn]]].
+  split; [rewrite Hids; discriminate|]. intros x y Hx. split.
+  - intros Hy. apply (conn_trans F x a y); [apply conn_sym; exact (Hconn x Hx) | exact (Hconn y Hy)].
+  - apply closed_conn; [exact (p_closed _ _ Hpart c Hc) | exact Hx].
+Qed.
+
 (* ---------------- merged components ---------------- *)
 Definition merge_step (acc : ccstate * list nat) (a : nat) : ccstate * list nat :=
   let '(s0, l) := acc in
@@ -579,11 +663,13 @@ Lemma merge_fold_spec l0 : forall al s l,
   (forall x, marked (in_cc (fst (fold_left merge_step al (s, l)))) x <->
              marked l0 x \/ In x (snd (fold_left merge_step al (s, l)))) /\
   (forall a, In a al -> In a (snd (fold_left merge_step al (s, l)))) /\
-  (forall x, In x l -> In x (snd (fold_left merge_step al (s, l)))).
+  (forall x, In x l -> In x (snd (fold_left merge_step al (s, l)))) /\
+  (forall x, In x (snd (fold_left merge_step al (s, l))) ->
+             In x l \/ exists a, In a al /\ conn F a x).
 Proof.
   induction al as [|a r IH]; intros s l Hal Hs Hl Hm.
   - cbn [fold_left fst snd]. split; [exact Hs|]. split; [exact Hl|]. split; [exact Hm|].
-    split; [intros a [] | auto].
+    split; [intros a []|]. split; [auto | intros x Hx; left; exact Hx].
   - assert (Hr : forall a0, In a0 r -> In a0 (args F) /\ ~ marked l0 a0) by (intros a0 H; apply Hal; right; exact H).
     destruct (Hal a (or_introl eq_refl)) as [Ha Hna0].
     cbn [fold_left].
@@ -592,12 +678,14 @@ Proof.
               else let '(s1, c) := find_cc g s a in (s1, l ++ c)) by reflexivity.
     rewrite Hstep. clear Hstep.
     destruct (nth_bool (in_cc s) a) eqn:E.
-    + destruct (IH s l Hr Hs Hl Hm) as [H1 [H2 [H3 [H4 H5]]]].
-      split; [exact H1|]. split; [exact H2|]. split; [exact H3|]. split; [|exact H5].
-      intros a' [<-|Ha']; [|exact (H4 a' Ha')]. apply H5.
-      apply Hm in E. destruct E as [E|E]; [contradiction | exact E].
+    + destruct (IH s l Hr Hs Hl Hm) as [H1 [H2 [H3 [H4 [H5 H6]]]]].
+      split; [exact H1|]. split; [exact H2|]. split; [exact H3|]. split; [|split; [exact H5|]].
+      * intros a' [<-|Ha']; [|exact (H4 a' Ha')]. apply H5.
+        apply Hm in E. destruct E as [E|E]; [contradiction | exact E].
+      * intros x Hx. destruct (H6 x Hx) as [H|[a' [Ha' Hc']]]; [left; exact H|].
+        right. exists a'. split; [right; exact Ha' | exact Hc'].
     + assert (Hna : ~ marked (in_cc s) a) by (unfold marked; rewrite E; discriminate).
-      destruct (find_cc_spec s a Hs Ha Hna) as [Hs1 [Hcc [Hin Hm1]]].
+      destruct (find_cc_spec s a Hs Ha Hna) as [Hs1 [Hcc [Hin [Hm1 [_ Hconn1]]]]].
       destruct (find_cc g s a) as [s1 c]. cbn [fst snd] in Hs1, Hcc, Hin, Hm1.
       assert (Hl' : cc_ok l0 (l ++ c)).
       { constructor.
@@ -611,10 +699,14 @@ Proof.
           + right. exact (co_closed _ _ Hcc x y Hx Hxy). }
       assert (Hm' : forall x, marked (in_cc s1) x <-> marked l0 x \/ In x (l ++ c)).
       { intros x. rewrite Hm1, Hm, in_app_iff. tauto. }
-      destruct (IH s1 (l ++ c) Hr Hs1 Hl' Hm') as [H1 [H2 [H3 [H4 H5]]]].
-      split; [exact H1|]. split; [exact H2|]. split; [exact H3|]. split.
+      destruct (IH s1 (l ++ c) Hr Hs1 Hl' Hm') as [H1 [H2 [H3 [H4 [H5 H6]]]]].
+      split; [exact H1|]. split; [exact H2|]. split; [exact H3|]. split; [|split].
       * intros a' [<-|Ha']; [|exact (H4 a' Ha')]. apply H5. apply in_or_app. right. exact Hin.
       * intros x Hx. apply H5. apply in_or_app. left. exact Hx.
+      * intros x Hx. destruct (H6 x Hx) as [H|[a' [Ha' Hc']]].
+        -- apply in_app_or in H. destruct H as [H|H]; [left; exact H|].
+           right. exists a. split; [left; reflexivity | exact (Hconn1 x H)].
+        -- right. exists a'. split; [right; exact Ha' | exact Hc'].
 Qed.
 
 (** (T2) merging the components of the listed arguments, then iterating over the rest *)
@@ -622,6 +714,7 @@ Theorem merged_cc_ok_sec : forall al,
   (forall a, In a al -> In a (args F)) ->
   exists s' c, merged_cc_of g (cc_new g) al = Some (s', c) /\
     (forall a, In a al -> In a (c_ids c)) /\
+    (forall x, In x (c_ids c) -> exists a, In a al /\ conn F a x) /\
     exists rest, remaining_ccs g s' = Some rest /\ decomp_ok F (c :: rest).
 Proof.
   intros al Hal. destruct cc_new_spec as [Hs Hnone]. unfold merged_cc_of.
@@ -630,14 +723,16 @@ Proof.
     destruct E as [a [_ Ha]]. exfalso. exact (Hnone a Ha). }
   rewrite Hex.
   change (fold_left _ al (cc_new g, [])) with (fold_left merge_step al (cc_new g, [])).
-  destruct (merge_fold_spec (in_cc (cc_new g)) al (cc_new g) []) as [Hs' [Hcc [Hm [Hin _]]]].
+  destruct (merge_fold_spec (in_cc (cc_new g)) al (cc_new g) []) as [Hs' [Hcc [Hm [Hin [_ Hconn]]]]].
   - intros a Ha. split; [exact (Hal a Ha) | apply Hnone].
   - exact Hs.
   - constructor; [constructor | intros x [] | intros x y []].
   - intros x. cbn [In]. tauto.
-  - destruct (fold_left merge_step al (cc_new g, [])) as [s' ids]. cbn [fst snd] in Hs', Hcc, Hm, Hin.
+  - destruct (fold_left merge_step al (cc_new g, [])) as [s' ids].
+    cbn [fst snd] in Hs', Hcc, Hm, Hin, Hconn.
     destruct (extract_cc_ok _ _ Hcc) as [c [Hc [Hids Hgood]]]. rewrite Hc.
     exists s', c. split; [reflexivity|]. split; [rewrite Hids; exact Hin|].
+    split; [rewrite Hids; intros x Hx; destruct (Hconn x Hx) as [[]|H]; exact H|].
     destruct (remaining_ccs_spec s' Hs') as [rest [Hrest Hpart]]. exists rest. split; [exact Hrest|].
     apply (part_ok_decomp (in_cc (cc_new g))); [exact Hnone|].
     apply (part_ok_cons _ (in_cc s')); rewrite ?Hids; assumption.
@@ -736,7 +831,36 @@ Theorem merged_cc_ok : forall g F al, view_ok g F ->
   exists s' c, merged_cc_of g (cc_new g) al = Some (s', c) /\
     (forall a, In a al -> In a (c_ids c)) /\
     exists rest, remaining_ccs g s' = Some rest /\ decomp_ok F (c :: rest).
-Proof. intros g F al Hv. exact (merged_cc_ok_sec g F Hv al). Qed.
+Proof.
+  intros g F al Hv Hal. destruct (merged_cc_ok_sec g F Hv al Hal) as [s' [c [H1 [H2 [_ H3]]]]].
+  exists s', c. split; [exact H1|]. split; [exact H2 | exact H3].
+Qed.
+
+(** the components of the iterator are nonempty and are exactly the connectivity classes of F
+    (so the decomposition of T1 is the finest one) *)
+Theorem all_ccs_classes : forall g F ccs, view_ok g F -> all_ccs g = Some ccs ->
+  forall c, In c ccs ->
+    c_ids c <> [] /\ forall x y, In x (c_ids c) -> (In y (c_ids c) <-> conn F x y).
+Proof. intros g F ccs Hv. exact (all_ccs_classes_sec g F Hv ccs). Qed.
+
+(** the merged component contains nothing but the classes of the listed arguments *)
+Theorem merged_cc_exact : forall g F al s' c, view_ok g F ->
+  (forall a, In a al -> In a (args F)) ->
+  merged_cc_of g (cc_new g) al = Some (s', c) ->
+  forall x, In x (c_ids c) <-> exists a, In a al /\ conn F a x.
+Proof.
+  intros g F al s' c Hv Hal H x.
+  destruct (merged_cc_ok_sec g F Hv al Hal) as [s1 [c1 [H1 [H2 [H3 [rest [_ Hd]]]]]]].
+  rewrite H in H1. injection H1 as <- <-. split; [apply H3|].
+  intros [a [Ha Hax]]. apply (closed_conn F (c_ids c) a x); [|exact (H2 a Ha) | exact Hax].
+  intros u v Hu Huv.
+  assert (Hex : exists c', In c' (c :: rest) /\ In u (c_ids c') /\ In v (c_ids c')).
+  { destruct Huv as [Huv|Huv]; destruct (d_nocross _ _ Hd _ _ Huv) as [c' [Hc' [Hx1 Hx2]]];
+      exists c'; (split; [exact Hc'|]); split; assumption. }
+  destruct Hex as [c' [Hc' [Hu' Hv']]].
+  rewrite (comps_disjoint (c :: rest) c c' u (d_nodup _ _ Hd) (or_introl eq_refl) Hc' Hu Hu').
+  exact Hv'.
+Qed.
 
 (* instances *)
 Corollary all_ccs_compact_ok : forall F n, compact_af F n ->
@@ -824,6 +948,8 @@ Print Assumptions view_of_af_ok.
 Print Assumptions view_of_fw_ok.
 Print Assumptions all_ccs_ok.
 Print Assumptions merged_cc_ok.
+Print Assumptions all_ccs_classes.
+Print Assumptions merged_cc_exact.
 Print Assumptions all_ccs_compact_ok.
 Print Assumptions merged_cc_compact_ok.
 Print Assumptions all_ccs_store_ok.
